@@ -25,9 +25,11 @@ def run(ctx):
     ctx.stream("views", "c09", "Driver/C09.lean", n=n, drv_timeout=3000, timeout=3000)
     ctx.stream("views-smallcache", "c09", "Driver/C09.lean", n=n if ctx.thorough else 1200, seed=ctx.seed * 1000 + 9,
                args=["-cache", "2", "-keys", "40"], drv_timeout=3000, timeout=3000)
-    # tiny key space: substores shrink to 0-3 keys all the time (single-leaf roots, root replacement)
+    # tiny key space: substores shrink to 0-3 keys all the time (single-leaf roots, root replacement); 35% of the writes are
+    # followed at once by a view of the LATEST committed height (LoadLazyVersion | CacheMultiStoreWithVersion | PrevCtx | query)
+    # that is read out completely while the working stores are dirty (mid-block historical read of the last height)
     ctx.stream("views-tiny", "c09", "Driver/C09.lean", n=n if ctx.thorough else 1000, seed=ctx.seed * 1000 + 11,
-               args=["-keys", "3"], drv_timeout=3000, timeout=3000)
+               args=["-keys", "3", "-mid", "35"], drv_timeout=3000, timeout=3000)
     # the optional height cache (C10's subject): its defects are visible through historical views
     ctx.stream("views-hcache", "c09", "Driver/C09.lean", n=20000 if ctx.thorough else 800, seed=ctx.seed * 1000 + 10, args=["-hcache"],
                drv_timeout=3000, timeout=3000)
@@ -47,6 +49,8 @@ RULE_B = ("c09b (stage B): one real iavl.MutableTree over MemDB, 16 short collid
           "(object identity, persisted flag, memoised hash, child pointers, cache/disk resolution of lazily loaded children); "
           "for the first 160 operations the Lean heap model is replayed next to the real heap and its working/lastSaved object shapes (and, for caches <= 64, "
           "the LRU queue) must equal the dumped ones; "
+          "stream heap-tiny: 3 keys, and 50% of the writes are followed at once by a view of the latest committed version "
+          "(LazyLoadVersion(latest) | LazyLoadVersion(0) | GetImmutable) that is iterated completely while the working tree is dirty; "
           "non-trivial = every line; distinct = distinct trace line")
 
 
@@ -57,6 +61,10 @@ def run_stage_b(ctx):
     ctx.stream("heap-cache2", "c09b", "Driver/C09b.lean", n=nb if ctx.thorough else 450, seed=ctx.seed * 1000 + 22, args=["-cache", "2"],
                drv_timeout=3000, timeout=3000)
     ctx.stream("heap-cache0", "c09b", "Driver/C09b.lean", n=nb if ctx.thorough else 450, seed=ctx.seed * 1000 + 23, args=["-cache", "0", "-keys", "24"],
+               drv_timeout=3000, timeout=3000)
+    # tiny tree (0-3 keys: single-leaf roots, a leaf directly under the root, root replacement by the persisted sibling on
+    # Remove); half of the writes are followed at once by a view of the LATEST committed version that is read out
+    ctx.stream("heap-tiny", "c09b", "Driver/C09b.lean", n=nb if ctx.thorough else 450, seed=ctx.seed * 1000 + 24, args=["-keys", "3", "-mid", "50"],
                drv_timeout=3000, timeout=3000)
 
 
